@@ -289,10 +289,74 @@ def check_multi(ctx, P):
     o = ctx.ob("multi.wake", wk, "internal_wake unlinks exactly the first waiter from the list before it marks it READY and schedules it, and touches nothing of it afterwards", "")
     bad = None
     sc = wk.calls(c01.SCHED)
-    un = [s.node for s in wk.stores_to(MC, "waiters")]
+    # the unlink: a store to a waiter-list field of the channel, or through the list pointer the caller passed
+    lp = {p["did"] for p in wk.params if "**" in (p.get("t") or "").replace(" ", "")}
+    un = [s.node for s in wk.stores() if (strip(s.target).k == "UnaryOperator" and strip(s.target).op == "*" and strip(strip(s.target).kids[0]) is not None
+                                          and wk.resolve(strip(s.target).kids[0]) is not None and strip(wk.resolve(strip(s.target).kids[0])).did in lp)]
+    un += [s.node for fld in waiter_fields(P) for s in wk.stores_to(MC, fld)]
     if len(sc) != 1 or not un or wk.dominated_by(sc[0], nodeset(un)) is not None:
         bad = "the waiter is scheduled before it is unlinked"
     o.check(bad is None, "unlink -> READY -> schedule", bad, site=wk.loc, construct="multi wake order")
+
+
+def waiter_fields(P):
+    """fields of the multi channel that hold a list of waiting fibers (type fiber_t*)"""
+    rec = P.record("fiber_multi_channel")
+    return [f["name"] for f in rec["fields"] if (f.get("t") or "").replace(" ", "") in ("fiber_t*", "structfiber*")]
+
+
+def list_of(P, f, call, helper):
+    """the waiter-list field(s) of the channel a call of internal_wait / internal_wake operates on"""
+    MC = "fiber_multi_channel"
+    flds = waiter_fields(P)
+    h = P.fn(helper)
+    out = set()
+    for a in f.args(call):
+        k = f.key(a, resolve=True)
+        for fld in flds:
+            if key_mentions(k, lambda y, fld=fld: y[0] == "f" and y[1] == MC and y[2] == fld):
+                out.add(fld)
+    if out:
+        return out
+    # no list argument: the helper names the list itself
+    for fld in flds:
+        if h.stores_to(MC, fld) or h.loads_of(MC, fld):
+            out.add(fld)
+    return out
+
+
+def check_multi_lists(ctx, P):
+    snd, rcv = P.fn("fiber_multi_channel_send"), P.fn("fiber_multi_channel_receive")
+    WAIT, WAKE = "fiber_multi_channel_internal_wait", "fiber_multi_channel_internal_wake"
+    o = ctx.ob("multi.lists", snd, "the list a blocked sender parks on is the list a completed receive wakes from, the list a blocked receiver parks on is the one a "
+               "completed send wakes from, and the two are different lists (or every wake-up empties the whole list)",
+               "with one shared list a completed send can pop a blocked *sender*: it re-tests, finds the channel still full and sleeps again, and the "
+               "wake-up is gone while a receiver deeper in the list sleeps for ever next to a full channel")
+    flds = waiter_fields(P)
+    if not flds:
+        raise AnalysisBroken("C11 multi.lists: no waiter list field in fiber_multi_channel")
+    try:
+        sw = list_of(P, snd, snd.calls(WAIT)[0], WAIT)
+        sk = list_of(P, snd, snd.calls(WAKE)[0], WAKE)
+        rw = list_of(P, rcv, rcv.calls(WAIT)[0], WAIT)
+        rk = list_of(P, rcv, rcv.calls(WAKE)[0], WAKE)
+    except IndexError:
+        raise AnalysisBroken("C11 multi.lists: wait / wake call sites not found")
+    wk = P.fn(WAKE)
+    sc = wk.calls(c01.SCHED)
+    wakes_all = bool(sc) and all(wk.find_path(q, lambda n, q=q: n is q) is not None for q in sc)
+    bad = None
+    if not (sw and sk and rw and rk):
+        bad = "cannot name the waiter lists (send waits on %s, wakes %s; receive waits on %s, wakes %s)" % (sorted(sw), sorted(sk), sorted(rw), sorted(rk))
+    elif len(sw) != 1 or len(sk) != 1 or len(rw) != 1 or len(rk) != 1:
+        bad = "a wait / wake site names more than one list"
+    elif sw != rk or rw != sk:
+        bad = "senders park on `%s` but a receive wakes `%s`; receivers park on `%s` but a send wakes `%s`" % (min(sw), min(rk), min(rw), min(sk))
+    elif sw == rw and not wakes_all:
+        bad = ("blocked senders and blocked receivers share the single list `%s` and a completed operation wakes only its first entry: a send can wake a sender "
+               "(a receive a receiver), which sleeps again, and the wake-up never reaches the peer that could proceed" % min(sw))
+    o.check(bad is None, "send: wait %s / wake %s; receive: wait %s / wake %s" % (sorted(sw), sorted(sk), sorted(rw), sorted(rk)), bad,
+            site=snd.calls(WAKE)[0], construct="multi channel waiter lists")
 
 
 def cond_mentions(f, b, i, fields):
@@ -364,6 +428,7 @@ def run(ctx):
     check_signal(ctx, P)
     check_bounded(ctx, P)
     check_multi(ctx, P)
+    check_multi_lists(ctx, P)
     check_init(ctx, P, "fiber_signal_init", [("fiber_signal", "waiter", 0)])
     check_init(ctx, P, "fiber_unbounded_channel_init", [("fiber_unbounded_channel", "ready_signal", "param:signal")], calls=["mpsc_fifo_init"], rule="init.unbounded",
                why="a channel that forgets its signal never wakes its sleeping receiver; one that keeps a stale signal raises somebody else's")
